@@ -369,7 +369,8 @@ def run_property(pid, tier, seed):
             "rule": "one evaluation per generated proof obligation (distinct by name) plus bounded stand-in cases; "
                     "obligations are non-trivial when their goal is not syntactically true",
         },
-        "assumptions": SEMANTIC_ASSUMPTIONS + meta.get("assumptions", []),
+        "assumptions": SEMANTIC_ASSUMPTIONS + meta.get("assumptions", []) + sorted(
+            {x for c in reg.contracts if pid in (getattr(c, "props", ()) or ()) for x in (getattr(c, "assumptions", ()) or ())}),
         "wall_s": round(wall, 2),
         "violations": len(violations) + len(b_viol),
     }
